@@ -475,6 +475,7 @@ func firstOutput(c Case) []byte {
 var reNulRef = regexp.MustCompile(`&#(0+|[xX]0+|[xX][0-9a-fA-F]{9,}|[0-9]{12,});`)
 var reAwait = regexp.MustCompile(`\bawait\b`)
 var reDelimBeforeBrace = regexp.MustCompile(`[{;](\s|/\*[^*]*\*+([^/*][^*]*\*+)*/)*\*(\s|/\*[^*]*\*+([^/*][^*]*\*+)*/)*\}`)
+var reURLClosedByEOF = regexp.MustCompile(`(?is)url\([^)]*$`)
 var reDashedFunctionDecl = regexp.MustCompile(`[{;]\s*--[-\w]*\(`)
 var reElseLexical = regexp.MustCompile(`else\s*\{[^{}]*\b(let|const|class)\b`)
 
@@ -498,6 +499,10 @@ func matchKnown(c Case, err error) string {
 		if rePrefixUpdateExp.MatchString(whole) {
 			return "C09-prefix-update-exp-reparse"
 		}
+	}
+	// a url( that only the end of the input closes: the last two bytes are taken for the quote and the parenthesis
+	if (c.Kind == "css" || c.Kind == "html" || c.Kind == "svg") && reURLClosedByEOF.Match(c.src()) && (strings.Contains(msg, "bad-string/bad-url") || strings.Contains(msg, "unbalanced brackets") || strings.Contains(msg, "rejects its own output")) {
+		return "C09-css-url-closed-by-eof"
 	}
 	// ]]&gt; decoded to ]]> in character data
 	if (c.Kind == "xml" || c.Kind == "svg") && strings.Contains(msg, "unescaped ]]> not in CDATA section") {
